@@ -24,6 +24,7 @@ CLAIMS = {
  'C13': 'calculate_weight function-level (>= amount, monotone in amount and duration by lemma chaining, range error); GLOBAL = sum of address weights per step and over the history open;expand;close; claim vs rewards-query differential for 2-3 unclaimed epochs, 1-2 flows, expansions; double claim; per-claim bounds; share sum <= 100% over a history with the snapshot before/after a close.',
  'C15': 'assert_max_spread (spread and belief-price clauses, default and cap) and the pair slippage-tolerance test with fully symbolic arguments, the arguments swap passes to the slippage check, and the router: AssertMinimumReceive appended last with the receiver balance, and Ok <=> balance delta >= minimum.',
  'C18': 'instantiate and every config-writing path of pair, trio, vault, fee distributor, bonding contract and fee collector with fully symbolic numeric parameters: an accepted call leaves fee triples valid, amplification / grace period / epoch duration / growth rate / take rate within their bounds, the grace period non-decreasing; a rejected one writes nothing. The token-factory burn-fee rule is decided over enumerated denom shapes (byte-string code).',
+ 'C19': 'Histories create -> instantiate-reply -> registry query with the assets swapped -> create with the assets swapped (must be refused) -> remove (swapped) -> create again, over every ordered pair of a 4-asset universe (pool factory), per asset (vault factory), per LP asset (incentive factory): exactly one instantiate submessage carrying the caller\'s assets/fees and the configured code ids, registry entry = instantiate message + reply address + what the child reports; failed instantiate reply writes nothing; router route registration accepted only when every hop is a factory-registered pair; paging the pair registry with a symbolic page size returns each entry exactly once.',
  'C20': 'Every path of the real epoch-manager create_epoch entry point from an arbitrary stored epoch/config with symbolic block time, 0..3 hooks: accepted calls are never early and advance id/start by exactly one step; permissionless.',
 }
 REASONS = {}
